@@ -37,7 +37,7 @@ RULE = (
 CLASSES = [
     "clone_new_job", "merge_existing_job", "nested_dir_recursive", "nested_dir_nonrecursive", "doc_nested_merge",
     "project_doc_merge", "selection_subset", "exclude_hit", "strategy_update_mtime", "doc_copy_mode",
-    "job_level_entry", "schema_gate", "bulk_jobs", "bulk_gt_500", "bulk_dry_run", "name_prefixed_by_internal_file", "job_level_new_job", "noop_uninitialised_source",
+    "job_level_entry", "schema_gate", "bulk_jobs", "bulk_gt_500", "bulk_dry_run", "stale_backup_leftover", "name_prefixed_by_internal_file", "job_level_new_job", "noop_uninitialised_source",
 ]
 ASSUMPTIONS = [
     "an exclude pattern excludes an entry iff it re.match-es the entry name at its level; only the two exact internal file names are excluded besides",
@@ -121,6 +121,12 @@ def _run_bulk(case, ctx):
 def run_case(case, ctx):
     if "bulk" in case:
         return _run_bulk(case, ctx)
+    if case.get("kind") == "stale_backup":
+        # a '<document>~' backup left by a killed earlier sync sits in the destination: the sync may refuse
+        # (signac raises RuntimeError and changes nothing); if it returns, P3 holds for the document
+        from .c14_sync_conflicts import run_stale_backup
+
+        return run_stale_backup(case, ctx)
     plan = sp.analyse(case)
     base, src_root, dst_root = sp.build_pair(ctx, plan, "c13")
     try:
@@ -418,6 +424,13 @@ def run(ctx):
     if ctx.worker == 0:
         for c in CONSTRUCTED:
             ctx.apply(c)
+    from hypothesis import strategies as st
+
+    docs = st.dictionaries(st.sampled_from(["x", "y", "n", "counter"]), st.sampled_from([0, 1, 5, "s", [1], {"k": 1}, {"k": 2}]), min_size=1, max_size=3)
+    drive(ctx, st.fixed_dictionaries({
+        "kind": st.just("stale_backup"), "level": st.sampled_from(["job", "project"]), "src_doc": docs, "dst_doc": docs, "stale": docs,
+        "doc_sync": st.sampled_from(["bykey_none", "bykey_none", "update"]),
+    }), 40 if ctx.tier == "quick" else 400, ctx.apply)
     for i, c in enumerate(BULK if ctx.tier != "quick" else BULK[:4]):
         if i % ctx.nworkers == ctx.worker:
             ctx.apply(c)
